@@ -208,9 +208,11 @@ func TestReplayLockOrder(t *testing.T) { vt.Replay(t, "lockorder", execLockOrder
 // was obtained.
 func TestPropLockOrderForced(t *testing.T) {
 	rec := vt.R()
-	for trial := 1; trial <= 30; trial++ {
+	got := map[bool]bool{}
+	for trial := 1; trial <= 40; trial++ {
 		rec.Eval()
-		obtained, err := forcedLockOrder()
+		failReader := trial%2 == 0
+		obtained, err := forcedLockOrder(failReader)
 		if err != nil {
 			c := LockOrderCase{CacheLimit: 1 << 30, ParkAt: 3, Prefix: 3, Batch: 2, HoldMs: 1, SecondKind: "vamana"}
 			p := vt.WriteReplay("lockorder", c, err)
@@ -218,16 +220,21 @@ func TestPropLockOrderForced(t *testing.T) {
 			t.Fatalf("%v", err)
 		}
 		if obtained {
-			rec.Count("forced_lock_order_obtained", 1)
-			rec.NonTrivial(fmt.Sprintf("forced-%d", trial))
+			rec.Count(fmt.Sprintf("forced_lock_order_obtained_failing_reader_%v", failReader), 1)
+			rec.NonTrivial(fmt.Sprintf("forced-%v", failReader))
 			rec.Max("forced_lock_order_trials", int64(trial))
-			return
+			got[failReader] = true
+			if got[true] && got[false] {
+				return
+			}
 		}
 	}
 	rec.Count("forced_lock_order_not_obtained", 1)
 }
 
-func forcedLockOrder() (obtained bool, err error) {
+// failReader: the storage read at which the search was parked fails when the search goes on, so that the
+// search leaves through the error path of the cache transaction instead of the regular one
+func forcedLockOrder(failReader bool) (obtained bool, err error) {
 	dir, cleanup := drive.CaseDir()
 	path := filepath.Join(dir, "sharddb.bbolt")
 	schema := models.IndexSchema{gen.PFlat: {Type: models.IndexTypeVectorFlat, VectorFlat: &models.IndexVectorFlatParameters{VectorSize: 2, DistanceMetric: models.DistanceEuclidean}},
@@ -268,9 +275,15 @@ func forcedLockOrder() (obtained bool, err error) {
 	g2Parked, g2Go := make(chan struct{}), make(chan struct{})
 	var sOnce, g1Once, g2Once sync.Once
 	var g1Goid atomic.Int64
-	s.Proxy.SetHooks(&drive.Hooks{Op: func(tx *drive.ProxyTx, kind string, n int64) {
+	var failNow atomic.Bool
+	s.Proxy.SetHooks(&drive.Hooks{FailOp: func(tx *drive.ProxyTx, kind string, n int64) error {
+		if failReader && !tx.Write && drive.Goid() == searchGoid.Load() && failNow.Swap(false) {
+			return fmt.Errorf("%s: %w", kind, drive.ErrInjected)
+		}
+		return nil
+	}, Op: func(tx *drive.ProxyTx, kind string, n int64) {
 		if !tx.Write && drive.Goid() == searchGoid.Load() && inStack("cache.(*Transaction).With") {
-			sOnce.Do(func() { close(sParked); <-sGo })
+			sOnce.Do(func() { close(sParked); <-sGo; failNow.Store(true) })
 		}
 		if tx.Write && inStack("vamana.NewIndexVamana") && inStack("cache.(*Transaction).With") {
 			g2Once.Do(func() { close(g2Parked); <-g2Go })
@@ -312,8 +325,7 @@ func forcedLockOrder() (obtained bool, err error) {
 		}
 	}
 	releaseAll := func() {
-		g1Once.Do(func() {})
-		g2Once.Do(func() {})
+		// (whoever is parked goes on; whoever arrives later finds the channels closed)
 		closeOnce(g1Go)
 		closeOnce(g2Go)
 		closeOnce(sGo)
